@@ -18,7 +18,7 @@ RULE = (
     "check_X coercions. non-trivial = >= 2 variables with names not in sorted order, or a "
     "path of length 3; distinct = distinct JSON of the case"
 )
-ASSUMPTIONS = ["cells carry the default time index 0..t-1", "a long table read back orders instances by their identifier, like variables; every other path keeps the order of appearance", "2-D table -> nested exists for a single variable only"]
+ASSUMPTIONS = ["cells carry the default time index 0..t-1 on the generic conversion paths; per-instance time labels are followed through nested <-> multi-index and nested -> long only", "a long table read back orders instances by their identifier, like variables; every other path keeps the order of appearance", "2-D table -> nested exists for a single variable only"]
 
 from sktime.utils import data_processing as dp  # noqa: E402
 from sktime.utils.validation.panel import check_X  # noqa: E402
@@ -257,6 +257,40 @@ def oracle(case, ctx):
     for what, got, want in checks:
         if isinstance(got, Raised) or got != want:
             discs.append(D("nestedness_predicate", "%s -> %r expected %r" % (what, got, want)))
+    # series whose cells carry their own, per-instance time labels (e.g. sliding windows of one
+    # long series): time order AND time labels of every instance survive nested <-> multi-index
+    # and nested -> long
+    offs = case.get("cell_offsets")
+    if offs and not discs:
+        ctx.label("per_instance_time_labels")
+        lab = [[offs[i % len(offs)] + k for k in range(t)] for i in range(n)]
+        Xo = pd.DataFrame({names[j]: [pd.Series(A[i, j].copy(), index=pd.Index(np.array(lab[i], dtype="int64"))) for i in range(n)]
+                           for j in range(c)}, index=pd.Index(inst))
+        mi = sut(dp.from_nested_to_multi_index, Xo, IX, TX)
+        if isinstance(mi, Raised):
+            discs.append(D("conversion_raised:Ns->MI:%s" % mi.type, "per-instance time labels: " + mi.msg))
+        else:
+            lev0, lev1 = list(mi.index.get_level_values(0)), [int(v) for v in mi.index.get_level_values(1)]
+            want0 = [x for i in range(n) for x in [inst[i]] * t]
+            want1 = [v for i in range(n) for v in lab[i]]
+            if lev0 != want0 or lev1 != want1 or not np.array_equal(mi.to_numpy(dtype=float), np.concatenate([A[i].T for i in range(n)], axis=0)):
+                discs.append(D("time_labels_differ:Ns->MI", "time labels %s expected %s" % (lev1[: 2 * t], want1[: 2 * t])))
+            else:
+                back = sut(dp.from_multi_index_to_nested, mi, IX)
+                if isinstance(back, Raised):
+                    discs.append(D("conversion_raised:MI->Ns:%s" % back.type, "per-instance time labels: " + back.msg))
+                else:
+                    got = [[int(v) for v in back.iloc[i, 0].index] for i in range(n)]
+                    if got != lab or not np.array_equal(dec_nested(back)[0], A):
+                        discs.append(D("time_labels_differ:Ns->MI->Ns", "cell time labels %s expected %s" % (got[:2], lab[:2])))
+        lg = sut(dp.from_nested_to_long, Xo, "case_id", "reading_id", "dim_id")
+        if isinstance(lg, Raised):
+            discs.append(D("conversion_raised:Ns->L:%s" % lg.type, "per-instance time labels: " + lg.msg))
+        else:
+            first = lg[lg["dim_id"] == names[0]]
+            got = [[int(v) for v in first[first["case_id"] == inst[i]]["reading_id"]] for i in range(n)]
+            if got != lab:
+                discs.append(D("time_labels_differ:Ns->L", "reading ids %s expected %s" % (got[:2], lab[:2])))
     # check_X coercions agree with the conversions
     r = sut(check_X, starts["Ns"], coerce_to_numpy=True)
     if isinstance(r, Raised) or not (isinstance(r, np.ndarray) and np.array_equal(r, A)):
@@ -293,7 +327,8 @@ def cases(draw):
         min_size=c, max_size=c), min_size=n, max_size=n))
     return {"values": vals, "names": names, "inst_start": draw(st.sampled_from([0, 0, 5])),
             "inst_order": draw(st.one_of(st.none(), st.lists(st.integers(0, 9), min_size=1, max_size=6))),
-            "inst_str": draw(st.booleans())}
+            "inst_str": draw(st.booleans()),
+            "cell_offsets": draw(st.one_of(st.none(), st.lists(st.integers(-5, 20), min_size=1, max_size=6)))}
 
 
 def subchecks():
